@@ -14,6 +14,7 @@ func genExtra(repo, out string) {
 	genSQL(repo, out)
 	genRoutes(repo, out)
 	genConfig(repo, out)
+	genLocks(repo, out)
 }
 
 // ---- C15: which configuration paths CheckUserInput checks -------------------------------------
